@@ -38,6 +38,24 @@ func evictScripts() []Seq {
 		// recency / frequency order among volatile keys when a persistent key pushes usage over the limit
 		add(pol, 180, e("set", "k1", "aa", "ex", "100"), e("get", "k1"), e("set", "k2", "bb", "ex", "100"), e("get", "k2"), e("set", "k3", "cc"), e("get", "k1"), e("get", "k2"))
 		add(pol, 180, e("set", "k1", "aa", "ex", "100"), e("get", "k1"), e("get", "k1"), e("set", "k2", "bb", "ex", "100"), e("get", "k2"), e("set", "k3", "cc"), e("get", "k1"), e("get", "k2"))
+		if pol != "noeviction" {
+			// the background sampler (started under every eviction policy; one pass per EvictionInterval)
+			tick := Op{Conn: -1, Tick: 1}
+			add(pol, 1000, e("set", "k1", "aa"), tick)
+			add(pol, 1000, eop(0, "set", "k1", "aa", "ex", "100"), eop(1, "select", "1"), eop(1, "set", "k2", "bb", "ex", "100"), Op{Conn: -1, Tick: 2})
+		}
+		if pol == "allkeys-lfu" || pol == "volatile-random" {
+			tick := Op{Conn: -1, Tick: 1}
+			add(pol, 1000, e("set", "k1", "aa", "ex", "100"), e("set", "k2", "bb", "ex", "100"), e("set", "k3", "cc"), tick)
+		}
+		if pol == "allkeys-lfu" {
+			var ops []Op
+			for i := 0; i < 21; i++ {
+				ops = append(ops, e("set", fmt.Sprintf("v%d", i), "x", "ex", "100"))
+			}
+			add(pol, 100000, append(ops, Op{Conn: -1, Tick: 1})...)
+			add(pol, 1000, e("set", "k1", "aa", "ex", "100"), e("flushdb"), Op{Conn: -1, Tick: 1})
+		}
 		// flush, then continue
 		add(pol, 200, e("set", "k1", "aa"), e("get", "k1"), e("set", "k2", "bb"), e("flushdb"), e("set", "k3", "cc"), e("get", "k3"))
 		add(pol, 1000, e("set", "k1", "aa", "ex", "100"), e("get", "k1"), e("flushdb"), e("set", "k3", "cc"), e("get", "k3"), e("objectfreq", "k3"))
@@ -96,6 +114,10 @@ func evictRandom(g *Gen, id string, n int) Seq {
 		var adv int64
 		if g.Chance(0.04) {
 			adv = []int64{50, 1000, 200000}[g.R.Intn(3)]
+		}
+		if pol != "noeviction" && g.Chance(0.002) {
+			s.Ops = append(s.Ops, Op{Conn: -1, Tick: 1 + g.R.Intn(2), Adv: adv})
+			continue
 		}
 		var cmd []string
 		x := g.R.Intn(1000)
